@@ -100,6 +100,15 @@ SYNTAX_SENSITIVE = {
     "imports": "import os.path\nimport os.path as p\nfrom os import sep as s\nprint(os.path.sep == p.sep == s)\n",
     "loops-break-else": "for i in range(3):\n    for j in range(3):\n        if j == 1:\n            break\n    else:\n        continue\n    if i == 1:\n        break\nelse:\n    print('no')\nprint(i, j)\n",
     "unpack-nested-star": "(a, *b), c = [1, 2, 3], 4\nfor x, (y, *z) in [(1, (2, 3, 4))]:\n    pass\nprint(a, b, c, x, y, z)\n",
+    "fstring-in-kwarg": "rows = [{'name': 'b'}, {'name': 'a'}]\nprint(sorted(rows, key=lambda p: f\"{p['name']}\"))\n",
+    "fstring-in-comp-clause": "d = {'k': 'v'}\nprint([c for c in f\"{d['k']}\" if c in f\"{d['k']}!\"])\n",
+    "fstring-in-default": "d = {'k': 'v'}\ndef f(a=f\"{d['k']}\", *, b=f\"{d['k']}2\"):\n    return a, b\nprint(f())\n",
+    "fstring-in-for-iter": "d = {'k': 'xy'}\nfor c in f\"{d['k']}\":\n    print(c)\n",
+    "fstring-in-class-kw-and-deco": "d = {'k': 'v'}\ndef deco(tag):\n    return lambda c: c\n@deco(f\"{d['k']}\")\nclass K:\n    t = f\"{d['k']}\"\nprint(K.t)\n",
+    "fstring-non-ascii-in-field": "d = {'\u00e9': 1, '\u20ac': 2}\nprint(f\"{d['\u00e9']} {d['\u20ac']} {'\u00fc'}\")\n",
+    "explicit-staticmethod-new": "class K:\n    @staticmethod\n    def __new__(cls, *a):\n        return object.__new__(cls)\n    @classmethod\n    def __init_subclass__(cls, **kw):\n        cls.seen = True\n    @classmethod\n    def __class_getitem__(cls, item):\n        return item\nclass L(K):\n    pass\nprint(type(K()).__name__, L.seen, K[3])\n",
+    "super-in-loop": "class B:\n    def m(self):\n        return 'B'\nclass K(B):\n    def m(self):\n        r = []\n        for i in range(2):\n            r.append(super().m())\n        n = 0\n        while n < 1:\n            n += 1\n            r.append(super().m() + 'w')\n        return r\nprint(K().m())\n",
+    "super-in-comprehension-free": "class B:\n    def m(self):\n        return 'B'\nclass K(B):\n    def m(self):\n        if True:\n            return super().m() + '!'\nprint(K().m())\n",
     "aug-all": "x = 7\nx += 1\nx -= 2\nx *= 3\nx //= 2\nx %= 5\nx **= 2\nx <<= 1\nx >>= 1\nx |= 8\nx &= 12\nx ^= 5\nx /= 2\nprint(x)\nimport operator\n",
 }
 
